@@ -18,6 +18,7 @@ type RValue struct {
 	Addr Ptr        // address of the value when it is addressable (result of Indirect/Elem)
 	Adr  bool
 	Zero bool // reflect.Zero(T)
+	S    Slice // the slice held (when T is a slice type made by reflect.MakeSlice)
 }
 
 func (e *Exec) resolveCallee(f *Frame, c *ssa.CallCommon) (*Closure, []Value) {
